@@ -164,6 +164,25 @@ def plan_level(ck, rng, lams):
                     ck.count(key=("planexp", level, nspin, i, lam))
                     if relerr(a2, lam ** 2 * a1) > 1e-11:
                         ck.violation("plan:eval_feat_exp:%s:power-not-2" % level, {"lam": lam, "i": i, "nspin": nspin, "err": relerr(a2, lam ** 2 * a1)})
+        # the function that is convolved, n x rho_mult, has power 3 (+2 for rho_mult = expnt), for BOTH plan classes,
+        # both exponent-ladder formulas and every version (the spline plan maps exponents to ladder indices internally:
+        # the multiplier must remain the lambda^2-homogeneous exponent, not the index)
+        from ciderpress.dft.plans import NLDFSplinePlan
+        for level in ("MGGA", "GGA"):
+            for ver in ("j", "i", "ij", "k"):
+                for mult, pw in (("one", 3), ("expnt", 5)):
+                    nl = M.nldf_settings(ver, level, mult)
+                    for cls, formula in ((NLDFGaussianPlan, "etb"), (NLDFGaussianPlan, "zexp"), (NLDFSplinePlan, "zexp"), (NLDFSplinePlan, "etb")):
+                        for nspin in (1, 2):
+                            plan = cls(nl, nspin, 1e-6, 1.8, 60, alpha_formula=formula, rhocut=0.0, expcut=1e-12, raise_large_expnt_error=False)
+                            t1 = (rho, sigma, tau) if level == "MGGA" else (rho, sigma)
+                            t2 = (lam ** 3 * rho, lam ** 8 * sigma, lam ** 5 * tau) if level == "MGGA" else (lam ** 3 * rho, lam ** 8 * sigma)
+                            f1 = plan.get_function_to_convolve(t1)[0]
+                            f2 = plan.get_function_to_convolve(t2)[0]
+                            ck.count(key=("planfunc", level, ver, mult, cls.__name__, formula, nspin, lam))
+                            if relerr(f2, lam ** pw * f1) > 1e-10:
+                                ck.violation("plan:function-to-convolve:%s:%s:%s:power-not-%d" % (cls.__name__, formula, mult, pw),
+                                             {"lam": lam, "ver": ver, "level": level, "nspin": nspin, "err": relerr(f2, lam ** pw * f1)})
         for mode in ("nst", "npa", "ns", "np"):
             sls = S.SemilocalSettings(mode)
             usps = np.array(sls.get_feat_usps(), dtype=float)
